@@ -7,6 +7,7 @@
    whether a warning is suppressed changes control flow. *)
 From Coq Require Import List NArith Bool String.
 From MV Require Import Base.PyStr Cfg.StrLit Cfg.WarnTypes Cfg.Warn Cfg.WarnProofs Gen.Warnings.
+From MV Require Import Cfg.WarnSrcPrelude Gen.WarnSrc Cfg.WarnSrcProofs.
 Import ListNotations.
 Open Scope string_scope.
 Open Scope list_scope.
@@ -136,6 +137,48 @@ Theorem C14_frontends_agree : forall S items,
   forallb item_type_nodot items = true -> run Docutils S items = run Sphinx S items.
 Proof. exact frontends_agree. Qed.
 Print Assumptions C14_frontends_agree.
+
+(* ---- source-translation tie (round 3): the same statements about the definitions REGENERATED from
+   warnings_.py on every run (Gen/WarnSrc.v: _is_suppressed_warning and the decision skeleton of
+   create_warning, statement by statement).  The refinement lemmas are in Cfg/WarnSrcProofs.v; the domain
+   mapping of the atomic expressions is gen/c14_src.py + Cfg/WarnSrcPrelude.v. ---- *)
+
+(* the regenerated code is the modelled code *)
+Theorem C14_source_refines_model :
+  (forall ty sub S, is_suppressed_src ty sub S = is_suppressed ty sub S) /\
+  (forall fe S e has_node has_line,
+     cw_src fe S e has_node has_line =
+     (fst (create_warning fe S e), snd (create_warning fe S e),
+      match snd (create_warning fe S e) with Some _ => we_placed e | None => false end)).
+Proof. split; [exact is_suppressed_src_eq | exact create_warning_src_eq]. Qed.
+Print Assumptions C14_source_refines_model.
+
+(* _is_suppressed_warning as written in the source = the documented rule (dot-free type) = Sphinx's *)
+Theorem C14_mirror_agrees_with_sphinx_src : forall ty sub S,
+  match ty with Some t => nodot t = true | None => True end ->
+  is_suppressed_src ty sub S = sphinx_is_suppressed ty sub S.
+Proof. exact mirror_agrees_src. Qed.
+Print Assumptions C14_mirror_agrees_with_sphinx_src.
+
+Theorem C14_suppressed_src_meaning : forall ty sub S, nodot ty = true ->
+  (is_suppressed_src (Some ty) sub S = true <->
+   exists w, In w S /\ (w = ty \/ w = ty ++ c_dot :: sub \/ w = ty ++ [c_dot; c_star])).
+Proof.
+  intros ty sub S H. rewrite (is_suppressed_src_spec ty sub S H). apply tag_matches_iff.
+Qed.
+Print Assumptions C14_suppressed_src_meaning.
+
+(* suppression is exact for parses that use the source's create_warning: full coupled statement, and
+   the guarded plain one *)
+Theorem C14_suppress_exact_src : forall fe S items,
+  forallb item_type_nodot items = true ->
+  run_src fe S items = strip_coupled S (run_src fe [] items) /\
+  (forallb xref_guard items = true -> run_src fe S items = strip S (run_src fe [] items)).
+Proof.
+  intros fe S items H. split; [apply run_src_suppress_coupled; exact H|].
+  intro G. apply run_src_suppress_exact; assumption.
+Qed.
+Print Assumptions C14_suppress_exact_src.
 
 (* non-vacuity: two warnings and other output, one tag suppressed by "myst.header" *)
 Example C14_example :
